@@ -1,7 +1,7 @@
 (* C05 — Round trip: deserialize after serialize is the identity on values. *)
 From Coq Require Import List String ZArith Bool.
 From AV Require Import Core.Json Deser.Model Deser.Spec Ser.Model Ser.Spec Ser.RoundTrip Ser.RoundTripProofs Ser.RoundTripInd Ser.CompileProofs Ser.Chain
-  Deser.Proofs.
+  Deser.Proofs Ser.RoundTripGen.
 Import ListNotations.
 
 (* values of type Any: the JSON value built from any JSON datum reads back as the same datum *)
@@ -50,3 +50,26 @@ Theorem C05_compiled_models_round_trip :
                deserialize u (dopts_of so) (S n) None t d = ROk v \/ deserialize u (dopts_of so) (S n) None t d = RFuel).
 Proof. exact compiled_models_round_trip. Qed.
 Print Assumptions C05_compiled_models_round_trip.
+
+(* SKIPS THAT ARE SYMMETRIC.  The bijective fragment excludes asymmetric skips; the others are covered: for dataclasses /
+   NamedTuples whose fields carry skip(serialization_default=True), none_as_undefined, an Undefined union, defaults of any
+   kind, under exclude_none / exclude_defaults and any order(), provided each omission restores the very value left out
+   (sym_field, executable: a None / Undefined that is dropped is the default; a default compared with == is a scalar of the
+   field's type or an empty list, so that Python equality is identity), serialization followed by deserialization gives
+   the value back.  The field loop leaves a subset of the properties; deserialization finds the emitted ones by their
+   alias, sees the others absent and optional, and the construction puts the defaults back. *)
+Theorem C05_round_trip_with_symmetric_skips :
+  forall u o n t v, rtg_hyps u o n t v = true ->
+  exists j d, image u o (S n) t v = SROk j /\ unembed j = Some d /\ spec u (dopts_of o) (S n) None t d = SOk v.
+Proof. exact round_trip_gen_checked. Qed.
+Print Assumptions C05_round_trip_with_symmetric_skips.
+
+Theorem C05_symmetric_skips_hypotheses_satisfiable :
+  rtg_hyps rtg_ex_univ rtg_ex_opts 3 (TObj 1) rtg_ex_value = true
+  /\ rt_hyps rtg_ex_univ rtg_ex_opts 3 (TObj 1) rtg_ex_value = false
+  /\ exists j, image rtg_ex_univ rtg_ex_opts 4 (TObj 1) rtg_ex_value = SROk j
+               /\ unembed j = Some (PDict [("p_lines", PList [PDict [("p_sku", PStr "x")];
+                                                               PDict [("p_parts", PList [PStr "p"]); ("p_sku", PStr "y"); ("p_quantity", PInt 2);
+                                                                      ("p_note", PStr "n"); ("p_tag", PStr "t")]])]%string).
+Proof. exact rtg_ex. Qed.
+Print Assumptions C05_symmetric_skips_hypotheses_satisfiable.
